@@ -102,6 +102,7 @@ def oracle(pid):
     def run(p):
         x32 = np.asarray(p["x"])
         x64 = x32.astype(complex if np.iscomplexobj(x32) else float)
+        integer = x32.dtype.kind in "iu"
         f = FUNCS[pid][p["fn"]]
         try:
             a = _flat(f(x32))
@@ -112,7 +113,9 @@ def oracle(pid):
         if a.shape != b.shape:
             return ["%s returns %d values for %s data and %d for the same samples in double precision" % (
                 p["fn"], a.size, x32.dtype, b.size)]
-        if not np.all(np.isfinite(a)) or rel(a, b) > TOL.get(pid, 2e-3):
+        # integer samples are exact in doubles: the result must be that of the same values held as floats
+        tol = 1e-9 if integer else TOL.get(pid, 2e-3)
+        if not np.all(np.isfinite(a)) or rel(a, b) > tol:
             return ["%s on %s data differs from the result for the same sample values in double precision: rel err %.2e (N=%d)" % (
                 p["fn"], x32.dtype, rel(a, b) if np.all(np.isfinite(a)) else float("inf"), len(x32))]
         return []
@@ -137,3 +140,13 @@ def gen(pid, nrng, tier):
                 if cplx:
                     x = x + 1j * nrng.standard_normal(N) + 1.5 * np.exp(2j * np.pi * 0.21 * n)
                 yield ("single", {"x": x.astype(np.complex64 if cplx else np.float32), "fn": fn})
+            # narrow integer dtypes at realistic amplitudes (16-bit audio, 8-bit images, 32-bit counters): products of two
+            # samples do not fit the sample type
+            N = int(nrng.integers(40, 72))
+            n = np.arange(N)
+            for dt, amp in ((np.int16, 8000.0), (np.int8, 100.0), (np.uint8, 100.0), (np.int32, 1e5)):
+                xi = amp * (0.6 * np.cos(0.9 * n + 0.3) + 0.15 * nrng.standard_normal(N))
+                if dt is np.uint8:
+                    xi = xi + 128
+                xi = np.clip(np.round(xi), np.iinfo(dt).min, np.iinfo(dt).max).astype(dt)
+                yield ("single", {"x": xi, "fn": fn})
